@@ -57,6 +57,15 @@ class AbelTransform(LinearOperator):
         )
 
     def _adj(self, x: jax.Array) -> jax.Array:  # type: ignore
+        if self.input_shape[1] % 2 == 1:
+            # For an odd number of columns the quadrants share the centre column, and the
+            # quadrant-wise transpose is not the adjoint of the forward transform.
+            fwd = lambda z: _pyabel_transform(
+                z, direction="forward", proj_mat_quad=self.proj_mat_quad
+            ).astype(x.dtype)
+            return jax.linear_transpose(fwd, jnp.zeros(self.input_shape, dtype=x.dtype))(x)[
+                0
+            ].astype(self.input_dtype)
         return _pyabel_transform(x, direction="transpose", proj_mat_quad=self.proj_mat_quad).astype(
             self.input_dtype
         )
